@@ -444,6 +444,11 @@ impl Stack {
         self.max_stack_size = max_stack_size;
     }
 
+    #[cfg(feature = "verif_hooks")]
+    pub fn max_stack_size(&self) -> VmIndex {
+        self.max_stack_size
+    }
+
     fn assert_pop(&self, count: VmIndex) {
         let frame = self.frames.last().unwrap();
         let args = if let State::Extern(ExternState {
@@ -937,6 +942,8 @@ where
         if stack.len() + frame.state.max_stack_size() > stack.max_stack_size {
             return Err(Error::StackOverflow(stack.max_stack_size));
         }
+        #[cfg(feature = "verif_hooks")]
+        crate::verif::on_frame(stack.len() as usize, stack.max_stack_size as usize);
 
         // SAFETY The frame's gc pointers are scanned the `Stack::trace` since they are on
         // the stack
